@@ -1144,6 +1144,15 @@ func (l *Ledger) Truncate(utxovmLastID []byte) error {
 		}
 	}
 
+	// the new tip has no successor on the main chain any more
+	tipBlock := proto.Clone(block).(*pb.InternalBlock)
+	tipBlock.NextHash = []byte{}
+	err = l.saveBlock(tipBlock, batchWrite)
+	if err != nil {
+		l.xlog.Warn("truncate failed when saving the new tip", "err", err)
+		return err
+	}
+
 	newMeta.TrunkHeight = block.Height
 	metaBuf, err := proto.Marshal(newMeta)
 	if err != nil {
@@ -1154,8 +1163,10 @@ func (l *Ledger) Truncate(utxovmLastID []byte) error {
 	err = batchWrite.Write()
 	if err != nil {
 		l.xlog.Warn("batch write failed when truncate", "err", err)
+		l.blkHeaderCache.Del(string(block.Blockid))
 		return err
 	}
+	l.blockCache.Del(string(block.Blockid))
 	l.meta = newMeta
 
 	l.xlog.Info("truncate blockid succeed")
